@@ -92,6 +92,23 @@ def run(ctx):
         sp['id'] = sp['id'].replace('_resc', '_mixed')
     util.add_split(mixed)
     specs += mixed
+    # ... and the classical form of it: a site with a demand of 1 MWh per hour modelled in GW / GWh with prices per GWh (the default
+    # solver cannot reach its usual accuracy on these: whatever is handed back as a solution has to balance; no solution is fine)
+    import pandas as _pd
+    for k_ in range(4 if ctx.tier == 'quick' else 12):
+        r_ = random.Random('%s/c01gw/%d' % (ctx.seed, k_))
+        T_ = r_.choice([24, 36, 48])
+        g_ = {'start': '2021-01-01 00:00', 'freq': 'h', 'unit': 'h', 'tz': None, 'T': T_}
+        g_['end'] = (_pd.Timestamp(g_['start']) + _pd.Timedelta(hours=T_)).strftime('%Y-%m-%d %H:%M')
+        lvl = r_.choice([1.0e6, 2.0e6, 5.0e5])
+        sp_ = {'grid': g_, 'prices': {'p0': [lvl * (1.0 + r_.random()) for _ in range(T_)]}, 'opts': {}, 'id': 'c01gw_%d' % k_, 'seed': '%s/c01gw/%d' % (ctx.seed, k_),
+               'assets': [{'kind': 'SimpleContract', 'name': 'supply', 'nodes': ['grid'], 'price': 'p0', 'min_cap': -1.0e3, 'max_cap': 1.0e3},
+                          {'kind': 'SimpleContract', 'name': 'demand', 'nodes': ['site'], 'min_cap': 1.0e-3, 'max_cap': 1.0e-3},
+                          {'kind': 'Transport', 'name': 'line', 'nodes': ['grid', 'site'], 'min_cap': 0.0, 'max_cap': 1.0e3, 'efficiency': 0.9},
+                          {'kind': 'Storage', 'name': 'battery', 'nodes': ['site'], 'size': 3.0e3, 'cap_in': 1.0e3, 'cap_out': 1.0e3, 'eff_in': 0.9, 'start_level': 0.0, 'end_level': 0.0}]}
+        if k_ % 2:
+            sp_['opts']['split'] = 'd'
+        specs.append(sp_)
     # everything fixed (must-take profiles, fixed loads): balanced by construction or not -- a failure is fine, an unbalanced solution is not
     fx = gen.gen_many(ctx.seed, n // 4, dict(CFG, p_coarse=0.0, p_periodic=0.0, p_window=0.0, nodes=(1, 2), n_assets=(1, 3), p_market=1.0,
                                              kinds={'SimpleContract': 3, 'Transport': 1}), 'c01fix_')
